@@ -1157,6 +1157,7 @@ class _StatefulMultiProcessingDataLoaderIter(_StatefulBaseDataLoaderIter):
             for idx in range(self._num_workers):
                 self._index_queues[idx].put(_utils.worker._ResumeIteration(self._shared_seed))
             resume_iteration_cnt = self._num_workers
+            resume_exception = None
             while resume_iteration_cnt > 0:
                 return_idx, data = self._get_data()
                 if not all(self._workers_status):
@@ -1164,12 +1165,18 @@ class _StatefulMultiProcessingDataLoaderIter(_StatefulBaseDataLoaderIter):
                 if isinstance(return_idx, _utils.worker._ResumeIteration):
                     assert isinstance(data, _AckStartup), (return_idx, data)
                     if isinstance(data.initial_state, ExceptionWrapper):
-                        data.initial_state.reraise()
-                    assert data.initial_state is not None, data
-                    self._worker_snapshots[self._worker_key(data.worker_id)] = _IncrementalWorkerState(
-                        data.initial_state  # type: ignore[arg-type]
-                    )
+                        # The workers stay alive: take every acknowledgement off the queue before
+                        # raising, so that none is left over for the next epoch
+                        if resume_exception is None:
+                            resume_exception = data.initial_state
+                    else:
+                        assert data.initial_state is not None, data
+                        self._worker_snapshots[self._worker_key(data.worker_id)] = _IncrementalWorkerState(
+                            data.initial_state  # type: ignore[arg-type]
+                        )
                     resume_iteration_cnt -= 1
+            if resume_exception is not None:
+                resume_exception.reraise()
 
         # Reset state variables
         self._main_snapshots = collections.deque()
